@@ -131,6 +131,7 @@ CONTRACTS = {
         },
     ),
     "vsg.rule.configure_group_rule_attributes": dict(
+        fields={"vsg.rule.Rule.groups": "map[str,bool]"},  # the list of group names is only asked for membership: modelled as the set of its elements
         types={"self": RULE, "oConfig": CFG},
         requires=GROUP_SHAPE + ["ga != 'severity'"],
         modifies=["heap:dict.__vals__", "heap:Rule.severity"],
@@ -220,6 +221,7 @@ CONTRACTS.update({
     ),
     # ------------------------------------------------------------------------------------------------ the three levels in order
     "vsg.rule.Rule.configure": dict(
+        fields={"vsg.rule.Rule.groups": "map[str,bool]"},  # the list of group names is only asked for membership: modelled as the set of its elements
         types={"oConfig": CFG},
         returns="list[str]",
         requires=["'rule' in oConfig.dConfig", "ga != 'severity'"] + sorted(set(shape("global") + GROUP_SHAPE + RULE_SHAPE)),
@@ -290,5 +292,42 @@ CONTRACTS.update({
         modifies=[],
         locals={"lRuleNames": "list[str]"},
         loops={1: dict(invariant=["forall(lambda j: not %s, 0, _i)" % BAD])},
+    ),
+})
+
+
+# ---------------------------------------------------------------------------------------------- emitting the configuration (C17)
+# get_configuration dumps every name of rule.configuration and the severity's name; read back as the rule-id section of a
+# configuration (configure_rule_attributes above) every entry is written back unchanged: the round trip is the identity on the
+# attributes (lemma over the two contracts, checked as obligations of the function `emit_then_configure` below is not possible
+# without executable code, so it is stated as the postcondition `result[ga] is self.__dict__[ga]` here and `self.__dict__[ga] is
+# RL[ga]` there).
+FIELDS.update({"vsg.severity.error.name": "str"})
+CONTRACTS.update({
+    "vsg.rule.Rule.get_configuration": dict(
+        returns="obj:builtins.dict",
+        requires=["forall(lambda k: self.configuration[k] in self.__dict__, 0, len(self.configuration))", "ga != 'severity'"],
+        modifies=["heap:dict.__keys__", "heap:dict.__vals__"],
+        ensures=[
+            "result is not self.__dict__",
+            # exactly the configurable names and the severity
+            "(ga in result) == (ga in self.configuration)",
+            "'severity' in result",
+            # every value is the attribute's own value (the very object: nothing is converted on the way out)
+            "implies(ga in self.configuration, result[ga] is self.__dict__[ga])",
+            # the rule itself is not touched
+            "(ga in self.__dict__) == old(ga in self.__dict__) and implies(ga in self.__dict__, self.__dict__[ga] is old(self.__dict__[ga]))",
+        ],
+        loops={
+            1: dict(
+                invariant=[
+                    "dConfig is not self.__dict__",
+                    "(ga in dConfig) == (ga in self.configuration[:_i])",
+                    "implies(ga in self.configuration[:_i], dConfig[ga] is self.__dict__[ga])",
+                    "not ('severity' in dConfig) or 'severity' in self.configuration[:_i]",
+                    "(ga in self.__dict__) == old(ga in self.__dict__) and implies(ga in self.__dict__, self.__dict__[ga] is old(self.__dict__[ga]))",
+                ]
+            )
+        },
     ),
 })
